@@ -2,7 +2,7 @@
 # usage: try_patch.sh <patch.diff> <Cnn|all> [keep]   — applies the patch to a scratch copy of /repo (never /repo itself),
 # runs the property's quick check on the copy and prints what is not discharged; removes the copy unless "keep".
 set -u
-export GOFLAGS=-mod=mod GOPROXY=off GOSUMDB=off GOTOOLCHAIN=local; unset GOWORK
+export GOFLAGS="-mod=mod -trimpath" GOPROXY=off GOSUMDB=off GOTOOLCHAIN=local; unset GOWORK
 here=$(cd "$(dirname "$0")/.." && pwd)
 d=$(mktemp -d /tmp/try.XXXXXX)
 rsync -a --exclude .git /repo/ $d/repo/
